@@ -11,6 +11,7 @@ import ast
 from typing import Dict, List, Optional, Set, Tuple
 
 from ..astutil import is_const
+from ..cfg import cfg_of
 from ..model import AnalysisError, ClassInfo, Func, RepoModel, call_name, const_str, dotted, is_self_attr, literal, norm, walk_no_nested
 
 PY = "lang/python_parser.py"
@@ -556,6 +557,48 @@ def check_default_values(model: RepoModel, rep, P: ClassInfo):
                           f"the default value is attached directly under `{norm(n.test)}`; `identifier` has a literal handler, so a default that "
                           f"names a variable (`def f(a, b=limit)`) is stored by name and read when the function is called -- after the variable "
                           f"may have been rebound, or shadowed by an earlier parameter -- instead of being captured when the def executes")
+    # the other arm: a non-constant default is captured into a variable of the ENCLOSING scope.  On every path on which the lowered
+    # value is a non-empty plain name (not already a temporary) a fresh temporary takes its place before the parameter_decl is built
+    fcfg = cfg_of(fd.node)
+    n_capt = 0
+    for nd in fcfg.g.nodes:
+        st = fcfg.stmt.get(nd)
+        if not (fcfg.kind[nd] == "stmt" and isinstance(st, ast.Assign) and len(st.targets) == 1 and isinstance(st.targets[0], ast.Name)
+                and isinstance(st.value, ast.Name) and st.value.id in pv.parsed):
+            continue
+        T, S = st.targets[0].id, st.value.id
+        # the emission that uses T as default_value
+        emits = [n2 for n2 in fcfg.g.nodes for e_ in fcfg.exprs_at(n2) for d in ast.walk(e_) if isinstance(d, ast.Dict)
+                 and any(k is not None and const_str(k) == "default_value" and isinstance(v, ast.Name) and v.id == T for k, v in zip(d.keys, d.values))
+                 and n2 in fcfg.reachable(nd)]
+        if not emits:
+            continue
+        n_capt += 1
+        rebinds = {n2 for n2 in fcfg.g.nodes if fcfg.kind[n2] == "stmt" and isinstance(fcfg.stmt[n2], ast.Assign) and any(isinstance(t, ast.Name) and t.id == T for t in fcfg.stmt[n2].targets)
+                   and isinstance(fcfg.stmt[n2].value, ast.Call) and is_self_attr(fcfg.stmt[n2].value.func, "tmp_variable")}
+        # branches on which S is known to be empty, or already a temporary
+        harmless = set()
+        for (t_, lab), b in fcfg.branch_of.items():
+            tst = fcfg.stmt[t_].test if isinstance(fcfg.stmt[t_], (ast.If, ast.While)) else None
+            if tst is None:
+                continue
+            neg = False
+            while isinstance(tst, ast.UnaryOp) and isinstance(tst.op, ast.Not):
+                tst, neg = tst.operand, not neg
+            truth = (lab == "T") != neg
+            if isinstance(tst, ast.Name) and tst.id == S and not truth:
+                harmless.add(b)
+            if isinstance(tst, ast.Compare) and isinstance(tst.ops[0], ast.In) and norm(tst.left) == f"{S}[0]" and truth:
+                harmless.add(b)
+        key = f"{PY}::Parser.function_definition::`{T} = {S}`::a default that is a plain name is captured into a temporary"
+        pth = fcfg.path_avoiding(nd, emits[0], rebinds | harmless)
+        if pth is None:
+            rep.holds("C01.R8", key, PY, st.lineno, "every path on which the lowered value is a non-empty plain name re-binds it to self.tmp_variable()")
+        else:
+            rep.violation("C01.R8", key, PY, st.lineno,
+                          f"the lowered default `{S}` can reach `default_value` unchanged although it is a plain name ({' -> '.join(fcfg.describe_path(pth)[:7])}): "
+                          f"`def step(base: int = base)` stores the NAME, which is then resolved inside the function being defined -- it hits the same-named "
+                          f"parameter instead of the enclosing variable whose value the def captures")
     if n_found < 2:
         raise AnalysisError(f"only {n_found} default-parameter branch(es) with a direct emission found in function_definition")
 
